@@ -22,6 +22,7 @@ from quara.simulation.standard_qtomography_simulation import (
     SimulationResult,
 )
 from quara.objects.qoperation_typical import generate_qoperation_object
+from quara.settings import Settings
 from quara.protocol.qtomography.standard.loss_minimization_estimator import (
     LossMinimizationEstimator,
 )
@@ -204,8 +205,12 @@ def execute_simulation_sample_unit(
         n_jobs=per_data_generation_n_jobs, verbose=2
     )(
         [
-            joblib.delayed(tmp_qtomography.generate_empi_dists_sequence)(
-                true_object, tmp_sim_setting.num_data, s
+            joblib.delayed(sim._call_with_atol)(
+                Settings.get_atol(),
+                tmp_qtomography.generate_empi_dists_sequence,
+                true_object,
+                tmp_sim_setting.num_data,
+                s,
             )
             for s in stream_datas
         ]
@@ -225,7 +230,9 @@ def execute_simulation_sample_unit(
 
     results = joblib.Parallel(n_jobs=per_estimator_unit_n_jobs, verbose=2)(
         [
-            joblib.delayed(execute_simulation_case_unit)(
+            joblib.delayed(sim._call_with_atol)(
+                Settings.get_atol(),
+                execute_simulation_case_unit,
                 test_setting,
                 true_object,
                 tester_objects,
@@ -290,7 +297,9 @@ def execute_simulation_test_setting_unit(
 
     results = joblib.Parallel(n_jobs=n_jobs, verbose=2)(
         [
-            joblib.delayed(execute_simulation_sample_unit)(
+            joblib.delayed(sim._call_with_atol)(
+                Settings.get_atol(),
+                execute_simulation_sample_unit,
                 test_setting,
                 generation_settings,
                 test_setting_index,
